@@ -8,7 +8,9 @@ tail = open(os.path.join(D, "90_tail.md")).read()
 props = []
 for i in range(1, 21):
     f = os.path.join(D, "C%02d.md" % i)
-    props.append(open(f).read().rstrip() + "\n" if os.path.exists(f) else "### C%02d — (check under construction; see MANIFEST.json not_applicable)\n" % i)
+    w2 = os.path.join(D, "C%02d_w2.md" % i)
+    extra = ("\n" + open(w2).read().rstrip() + "\n") if os.path.exists(w2) else ""
+    props.append(open(f).read().rstrip() + "\n" + extra if os.path.exists(f) else "### C%02d — (check under construction; see MANIFEST.json not_applicable)\n" % i)
 fixed, known = [], []
 for line in open(os.path.join(V, "known_findings.txt")):
     m = re.match(r"^(fixed|known):\s+property=(\S+)\s+(.*)$", line.strip())
